@@ -253,7 +253,7 @@ func runC05(c *ctx) {
 	c.Rule = "texts are generated from values: every item type x literal forms (decimal/hex/octal/binary in either case with sign, shortest/exact/exponent decimal floats, quoted runs and character codes in four bases, T/F, variables), rendered in random layouts and letter case -> class valid: the parsed message must denote exactly the generating model (types, order, values by printed form and by encoded bytes, variables). class invalid: one literal of a valid text replaced (or one added) by a literal its item type cannot represent (beyond each boundary, 1e20, 1e400, fraction, wrong kind, malformed, non-ASCII) -> an error and no message. class unspecified (low weight): representable value in an undocumented form -> an error or one of the plausible readings, never a third value. non-trivial = some literal is not in canonical decimal form, or the case is invalid/unspecified; distinct by text"
 	c.Assume = []string{"texts go from value to text, never the reverse; expected values are the generator's own", "undocumented forms (leading zero, + on unsigned, hex integers in floats, 5. or 1e1 in integer items, raw control characters in quotes) are classed unspecified"}
 
-	n := c.pick(40000, 1200000)
+	n := c.pick(120000, 1200000)
 	c.parallel(n, func(i int, r *rng.R) {
 		g := gen.New(r, gen.Profile{MaxDepth: 1 + r.Intn(3), Vars: i%3 == 0, Ellipsis: i%9 == 0, Budget: 200, MaxKids: 4, MaxElems: 6, Boundary: i%40 == 0})
 		it := g.Tree()
